@@ -258,7 +258,7 @@ def no_foreign_rename(repo: Repo, R):
         guarded = False
         for t, pol in path_conditions(fr.node, st):
             # the test, with a flag local replaced by what it was computed from
-            tx = shared.prov(fr.node, t, depth=1)
+            tx = shared.prov(fr.node, t, depth=1, keep=(mv,))
             if shared.conds_imply([(tx, pol)], [(shared.parse_cond(f"{mv}._generated_by is None"), True)]) is True:
                 # the (flag's) read of `_generated_by` must happen before the attribute is overwritten
                 readers = [s_ for s_ in au.stmts(fr.node) if isinstance(s_, ast.Assign) and len(s_.targets) == 1 and isinstance(s_.targets[0], ast.Name) and isinstance(t, ast.Name) and s_.targets[0].id == t.id]
